@@ -503,11 +503,10 @@ func (d *docSpec) extraHeight(slot int) int {
 func (d *docSpec) features(c pageCfg) []string {
 	set := map[string]bool{}
 	tr := d.tree()
-	for i, b := range d.Blocks {
+	for _, b := range d.Blocks {
 		if b.Kind != kP {
 			set[kindName[b.Kind]] = true
 		}
-		_ = i
 	}
 	for _, v := range d.Devs {
 		set[menu[v.D].Name] = true
